@@ -1,6 +1,11 @@
 package main
 
-import "github.com/drshriveer/gtools/gerror"
+import (
+	"github.com/drshriveer/gtools/gerror"
+
+	extgerror "gtverif/cmd/c15/ext/gerror"
+	"gtverif/cmd/c15/gerror/inner"
+)
 
 // Call sites whose frame names have less usual shapes (generic functions and methods, nested
 // closures, package-level function values, interface dispatch).  The expected (frame, derived
@@ -101,5 +106,29 @@ func init() {
 		site{siteN, "main.siteN.siteN.func1.func2", "main:siteN"},
 		site{globFn, "main.init.func1", "main:init"},
 		site{i.siteI, "main.implT.siteI", "main:implT:siteI"},
+		// call sites in other packages of the harness module: a package NAMED gerror and a package
+		// under a .../gerror/... path (neither is gtools' gerror): function, method, method value
+		site{func(f gerror.Factory, m int, a *callArgs) gerror.Error {
+			return extgerror.Call(f, m, a.Format, a.Elems)
+		},
+			"gtverif/cmd/c15/ext/gerror.Call", "gerror:Call"},
+		site{func(f gerror.Factory, m int, a *callArgs) gerror.Error {
+			return extgerror.Svc{}.Handle(f, m, a.Format, a.Elems)
+		},
+			"gtverif/cmd/c15/ext/gerror.Svc.Handle", "gerror:Svc:Handle"},
+		site{func(f gerror.Factory, m int, a *callArgs) gerror.Error {
+			return extgerror.ViaValue(f, m, a.Format, a.Elems)
+		},
+			"gtverif/cmd/c15/ext/gerror.ViaValue", "gerror:ViaValue"},
+		site{func(f gerror.Factory, m int, a *callArgs) gerror.Error { return inner.Call(f, m, a.Format, a.Elems) },
+			"gtverif/cmd/c15/gerror/inner.Call", "inner:Call"},
+		site{func(f gerror.Factory, m int, a *callArgs) gerror.Error {
+			return inner.Svc{}.Handle(f, m, a.Format, a.Elems)
+		},
+			"gtverif/cmd/c15/gerror/inner.Svc.Handle", "inner:Svc:Handle"},
+		site{func(f gerror.Factory, m int, a *callArgs) gerror.Error {
+			return inner.ViaValue(f, m, a.Format, a.Elems)
+		},
+			"gtverif/cmd/c15/gerror/inner.ViaValue", "inner:ViaValue"},
 	)
 }
